@@ -592,7 +592,7 @@ static void v_supervise(void (*worker)(void), double hang_s, const char *scratch
 {
 	char errpath[512];
 	struct vviol died[V_MAX_SKIP];
-	int ndied = 0;
+	int ndied = 0, nhangs = 0;
 	bool gave_up = false;
 
 	VS = mmap(NULL, sizeof(*VS), PROT_READ | PROT_WRITE, MAP_SHARED | MAP_ANONYMOUS, -1, 0);
@@ -707,8 +707,14 @@ static void v_supervise(void (*worker)(void), double hang_s, const char *scratch
 			died[ndied].count = 1;
 			ndied++;
 		}
-		if (VSKIP.n >= V_MAX_SKIP - 1) {
-			/* too many deaths: stop exploring, report what was seen; the run is not exhaustive */
+		if (hang)
+			nhangs++;
+		if (VSKIP.n >= V_MAX_SKIP - 1 || nhangs >= 3) {
+			/*
+			 * too many deaths - or three hangs, each of which costs the whole hang limit and which in practice
+			 * mean one systemic deadlock met by every case: stop exploring, report what was seen; the run is
+			 * not exhaustive
+			 */
 			gave_up = true;
 			break;
 		}
